@@ -271,6 +271,25 @@ func kernelsKoalabear(c *mon.Ctx) {
 				r.Free()
 			}
 		}
+		// a destination that already holds a digest (or anything else): the result is that of a fresh destination
+		for _, n := range []int{0, 1, 256, 1000} {
+			v := rnd(n)
+			fresh := make([]fr.Element, s.Degree)
+			used := rnd(s.Degree)
+			key := fmt.Sprintf("%s/SIS.Hash/log%d-b%d/used-destination/n%d", N, ps[0], ps[1], n)
+			var e1, e2 error
+			rec(c, key, func() []byte {
+				e1 = s.Hash(v, fresh)
+				e2 = s.Hash(v, used)
+				if e1 != nil || e2 != nil {
+					return []byte(fmt.Sprintf("error:%v / %v", e1, e2))
+				}
+				return rawBytes(used)
+			})
+			c.Check("SIS.Hash", key+"/differs-from-fresh-destination", (e1 == nil) == (e2 == nil) && (e1 != nil || bytes.Equal(rawBytes(used), rawBytes(fresh))), func() string {
+				return fmt.Sprintf("%s: Hash of %d elements into a destination holding other values: err=%v, into a zeroed destination: err=%v; first words %x vs %x", key, n, e2, e1, rawBytes(used[:1]), rawBytes(fresh[:1]))
+			})
+		}
 		// sparse inputs: runs of zero elements aligned / not aligned with the 256-element blocks
 		for si, zr := range [][2]int{{0, 256}, {256, 512}, {0, 512}, {100, 400}, {512, 768}, {255, 257}, {0, 1000}} {
 			v := rnd(1000)
